@@ -126,13 +126,21 @@ CLAIMED.update({
 NOT_APPLICABLE = {
     "C07": "relational equality of the behaviour of four declaration styles implemented in four modules; no clause is visible in the shape of any one code path, and the only structural candidate (prefixing consistency in _move_parser_actions) is a lint whose violation need not change behaviour (DESIGN.md section 3 / C07)",
     "C13": "soundness of the library's own static parameter resolver over all user programs; decided per program only against the interpreter (an execution oracle); the single wiring clause is too thin to count as deciding anything (DESIGN.md section 3 / C13)",
-    "C17": "the subcommand selection rule is a function of configuration contents (value-level tests in get_subcommands); no ordering / pairing / ownership clause stands in for it; its one structural site, the merge direction in handle_subcommands, is checked under C04 (DESIGN.md section 3 / C17)",
 }
 
 PENDING = "check not built yet in this session (planned in DESIGN.md section 3); listed here until its rules exist so that nothing is claimed without a deciding check"
 
 ALL = [f"C{n:02d}" for n in range(1, 21)]
 
+
+CLAIMED.update({
+    "C17": (
+        "guard-structure, dominance and key-derivation checks over the three functions that implement subcommand selection (static, ast CFG); variables identified by role",
+        "Narrow: decides six structural necessary conditions of the selection rule as written in get_subcommands / handle_subcommands / _ActionSubCommands.__call__: the chosen name is stored; the explicit key wins and the fallback (first declared subcommand with a section) is on its else-side; every other candidate's section is deleted unconditionally through the level's prefix; the descent into nested levels is unconditional for sub-parsers with subcommands and extends the prefix; the section is completed with the chosen sub-parser's environment/defaults with given values winning; an undeterminable required subcommand or an unknown name raises. Not decided: the resulting namespace for all subcommand trees and input mixes, default config files, the environment branch of _load_env_vars.",
+        "Trusted: argparse passes (name, rest) as values[0], values[1:]; merge_config(cfg_from, cfg_to) lets cfg_from win (decided under C04). First listed as not applicable; revised after seeded changes showed that the clauses are visible in the code's shape (DESIGN.md section 3 / C17).",
+        "DESIGN.md section 3 / C17",
+    ),
+})
 
 # clauses added after the seeding rounds: id -> (technique addition, level-text addition)
 ADDED = {
